@@ -360,7 +360,8 @@ def match_known(prop_id: str, v: dict[str, Any], known: list[dict[str, Any]]) ->
     for k in known:
         if k.get('status') != 'open' or k.get('property') != prop_id:
             continue
-        if k.get('clause') != v['clause']:
+        kc = k.get('clause')
+        if not (kc == v['clause'] or (isinstance(kc, list) and v['clause'] in kc)):
             continue
         sig = k.get('sig')
         if sig is None or sig == v['sig'] or (isinstance(sig, list) and v['sig'] in sig) \
